@@ -144,6 +144,10 @@ func ExecRun(t *testing.T, spec RunSpec, known *KnownFindings) *RunResult {
 	}
 	switch out.Kind {
 	case "panic":
+		if !panicInSUT(out.Detail) {
+			// a bug of the harness itself: never a property violation
+			panic("harness panic (not in the code under test): " + out.Detail)
+		}
 		res.Violations = append(res.Violations, mkSysViolation(spec.Prop, known, "panic", panicSig(out.Detail), out.Detail))
 	case "stuck":
 		res.Violations = append(res.Violations, mkSysViolation(spec.Prop, known, "stuck", stuckSig(out.Detail), out.Detail))
@@ -271,6 +275,11 @@ func runG1(e *env) {
 	e.setup()
 	cfg := &e.sc.Cfg
 	elec := [2]uint64{0, 1}
+	var bystander *session
+	if cfg.Bystander {
+		// negotiated, announced a low id once, then idle: must never be disturbed
+		bystander = e.openSession([2]uint64{0, 1}, cfg.FIBAck)
+	}
 	cur := e.openSession(elec, cfg.FIBAck)
 	modifies := 0
 	for i := range e.sc.Steps {
@@ -291,6 +300,8 @@ func runG1(e *env) {
 			e.flush(st.Flush)
 		case "get":
 			e.checkGet(propForGet(e), st.Get.NI, st.Get.All, spb.AFTType(st.Get.AFT))
+		case "badget":
+			e.badGet(st.Get)
 		case "handover":
 			if st.A == 1 && !cur.dead {
 				cur.mc.CloseSend()
@@ -314,6 +325,11 @@ func runG1(e *env) {
 		e.fullGetCheck("C07", 2)
 	} else {
 		e.fullGetCheck("C01", 1)
+	}
+	if bystander != nil {
+		if bystander.mc.Stream().Dead() || bystander.mc.Stream().QueuedToClient() > 0 {
+			e.report("C12", "bystander-disturbed", "another session was terminated or received messages", fmt.Sprintf("dead=%v result=%v queued=%d", bystander.mc.Stream().Dead(), bystander.mc.Stream().Result(), bystander.mc.Stream().QueuedToClient()), false)
+		}
 	}
 	for _, s := range e.sess {
 		if !s.dead && !s.closed {
@@ -373,4 +389,28 @@ func (e *env) drainAndProcess(s *session) {
 		e.probe("Modify RPC ended with an error")
 		e.checkTermination(s, term)
 	}
+}
+
+// panicInSUT reports whether the panicking frame chain reaches the module under
+// test (or its dependencies called from it) before any harness frame.
+func panicInSUT(detail string) bool {
+	lines := splitLines(detail)
+	// skip up to and including the last "panic(" frame (the runtime's re-panic entries)
+	start := 0
+	for i, l := range lines {
+		if hasPrefix(l, "panic(") {
+			start = i + 1
+		}
+	}
+	for _, l := range lines[start:] {
+		switch {
+		case hasPrefix(l, "github.com/openconfig/gribigo/"):
+			return true
+		case hasPrefix(l, "verifsim/harness.") && indexOf(l, "postChangeHook") < 0 && indexOf(l, "resolvedHook") < 0:
+			return false
+		case hasPrefix(l, "verifsim/"):
+			// simnet/simrt frames sit between the handler and the scheduler: keep looking
+		}
+	}
+	return false
 }
